@@ -90,27 +90,37 @@ func drawLine(tp *tape.Tape) []byte {
 type readStmt struct {
 	src   string
 	reads int
+	// errAfter: after its reads the statement ends in a runtime error that has nothing to do with
+	// input (division by zero at depth): lines not yet read must still be there afterwards
+	errAfter bool
 }
 
 func drawReadStmt(tp *tape.Tape) readStmt {
 	k := 1 + tp.Draw(3)
-	switch tp.Draw(8) {
+	switch tp.Draw(10) {
+	case 8:
+		return readStmt{"{\nrd()\nga = 1 / (2 - 2)\nrd()\n}", 1, true}
+	case 9:
+		if tp.Bool() {
+			return readStmt{"ga = 7 / (3 - 3)", 0, true}
+		}
+		return readStmt{fmt.Sprintf("for l <- grd(%d) {\nga = [1, 2][5]\n}", k), 1, true}
 	case 0:
-		return readStmt{"rd()", 1}
+		return readStmt{src: "rd()", reads: 1}
 	case 1:
-		return readStmt{fmt.Sprintf("rdd(%d)", tp.Draw(6)), 1}
+		return readStmt{src: fmt.Sprintf("rdd(%d)", tp.Draw(6)), reads: 1}
 	case 2:
-		return readStmt{fmt.Sprintf("for i <- fromto(0, %d) {\nrd()\n}", k), k}
+		return readStmt{src: fmt.Sprintf("for i <- fromto(0, %d) {\nrd()\n}", k), reads: k}
 	case 3:
-		return readStmt{fmt.Sprintf("for l <- grd(%d) {\nwrite(\"b\")\n}", k), k}
+		return readStmt{src: fmt.Sprintf("for l <- grd(%d) {\nwrite(\"b\")\n}", k), reads: k}
 	case 4:
-		return readStmt{"{\nrd()\nrd()\n}", 2}
+		return readStmt{src: "{\nrd()\nrd()\n}", reads: 2}
 	case 5:
-		return readStmt{"ga = rd() + rd()", 2}
+		return readStmt{src: "ga = rd() + rd()", reads: 2}
 	case 6:
-		return readStmt{fmt.Sprintf("for a, b <- grd(%d), grd(%d) {\nwrite(\"z\")\n}", k, k), 2 * k}
+		return readStmt{src: fmt.Sprintf("for a, b <- grd(%d), grd(%d) {\nwrite(\"z\")\n}", k, k), reads: 2 * k}
 	default:
-		return readStmt{fmt.Sprintf("for i <- fromto(0, %d) {\nfor l <- grd(1) {\nwrite(\"n\")\n}\n}", k), k}
+		return readStmt{src: fmt.Sprintf("for i <- fromto(0, %d) {\nfor l <- grd(1) {\nwrite(\"n\")\n}\n}", k), reads: k}
 	}
 }
 
@@ -327,7 +337,13 @@ func (C17) reads(tp *tape.Tape) core.Result {
 			}
 			totalReads++
 		}
-		if failed {
+		if st.errAfter && !failed {
+			if o.Kind != sess.KError || o.Err == "read error" {
+				r.Violation = &core.Violation{Clause: "R.unrelated-error-expected", Detail: fmt.Sprintf("statement %d (%s) should end in its own runtime error after %d read(s), ended with %s", si+1, trunc(st.src, 40), st.reads, o.Brief()), History: h}
+				goto done
+			}
+			r.Inc("F1.unrelated_runtime_error_between_reads", 1)
+		} else if failed {
 			if o.Kind != sess.KError || o.Err != "read error" {
 				r.Violation = &core.Violation{Clause: "R.exhausted-read-not-an-error", Detail: fmt.Sprintf("statement %d: a read with no complete line available ended with %s", si+1, o.Brief()), History: h}
 				goto done
